@@ -58,7 +58,8 @@ GROUND = [Bounded('escape_json_string_all_code_points', ground_escape_all_code_p
 # ---- JSON values ---------------------------------------------------------------------------------------------------------------------
 # only XML 1.0 characters: other code points cannot occur in an XDM string (parse-json replaces them by U+FFFD)
 STRINGS = ['', 'a', 'a b', '"', '\\', '/', '\\n', '\n', '\t', '\r', '\x7f', '\x85', '\xa0', '\u00e9', '\u20ac', '\U0001F600', 'a"b\\c/d', '\\u0041', '\\"', '\\\\',
-           'null', 'true', '1', '{', ']', ' x ', '\u2028', '\U0001D11Ex', '<&>', "'", '\\/', 'u0041', '\\b', 'tab\there', '\x9f', '\ufffd']
+           'null', 'true', '1', '{', ']', ' x ', '\u2028', '\U0001D11Ex', '<&>', "'", '\\/', 'u0041', '\\b', 'tab\there', '\x9f', '\ufffd', '\ud7ff', '\ud7fe\ue000', '\ufffc',
+           'a\ud7ffb', '\x20', '\x7e', '\U0010ffff', '\U00010000']
 NUMBERS = [0, 1, -1, 10, 255, 2 ** 31, 2 ** 53, 10 ** 20, 1.5, -0.5, 0.1, 1e20, 1e21, 1.5e300, 1e-7, 5e-324, 123456789.125, 0.30000000000000004, 1.7976931348623157e308,
            -2.5e-10, 100.0, 3.0]
 
@@ -110,7 +111,9 @@ def gen_values(rng, tier):
     atoms = [None, True, False] + STRINGS + NUMBERS
     vals = list(atoms)
     vals += [[], {}, [[]], [{}], {'k': []}, {'k': {}}, [None], {'k': None}, [[], [1]], {'a': [[], [1]]}, [1, [], 'x'], {'o': {'i': []}}, [[[]]], {'a': 1, 'b': 2},
-             {'': 1}, {'a b': 1, 'a': 2}, {'\\': 1, '/': 2, '"': 3}, {'a': 1, 'A': 2}, [True, False, None, 0, ''], {'😀': ['𝄞', '\x7f']}]
+             {'': 1}, {'a b': 1, 'a': 2}, {'\\': 1, '/': 2, '"': 3}, {'a': 1, 'A': 2}, [True, False, None, 0, ''], {'😀': ['𝄞', '\x7f']},
+             # keys that coincide only if one of them is (wrongly) read as an escape sequence; keys at the edges of the XML Char ranges
+             {'a\\n': 1, 'a\n': 2}, {'\\u0041': 1, 'A': 2}, {'\\\\': 1, '\\': 2}, {'\\t': 1, '\t': 2}, {'\\/': 1, '/': 2}, {'\ud7ff': 1, '\ue000': 2}, {'k\ud7ff': ['\ud7ff']}]
     for a in atoms[:: (3 if tier == 'quick' else 1)]:
         vals.append([a])
         vals.append({'k': a})
@@ -279,6 +282,33 @@ def xml_roundtrip(tier, seed):
                 same = f'{e.code}'
             if same is not True:
                 bad('parse-xml(serialize(node)) is not deep-equal to the node', tree=repr(t)[:160], text=text[:120], got=repr(same))
+    # document nodes with comments and processing instructions around the root element (lxml keeps them): the serialised text has the same document-level nodes
+    # in the same order, read back by libxml2; targets starting with "xml" (xml-stylesheet, xml-model) are ordinary processing instructions, not declarations
+    def doc_level(r):
+        pre = [(type(x).__name__, getattr(x, 'target', None), x.text) for x in reversed(list(r.itersiblings(preceding=True)))]
+        post = [(type(x).__name__, getattr(x, 'target', None), x.text) for x in r.itersiblings()]
+        return pre, post
+    prologs = [[('c', ' first ')], [('p', 'xml-stylesheet', 'href="a.css"')], [('c', ' c '), ('p', 'xml-stylesheet', 'href="a.css"')],
+               [('c', ' c '), ('p', 'xml-stylesheet', 'href="a.css"'), ('p', 'xml-model', 'href="m.rng"')], [('p', 'pi', 'x'), ('c', 'c'), ('p', 'xmlfoo', 'y')],
+               [('p', 'xml-stylesheet', 'a'), ('p', 'xml-stylesheet', 'b')]]
+    for k, prolog in enumerate(prologs):
+        for ser in sers:
+            n += 1
+            root = LX.XML('<r a="1"><?xml-stylesheet inner?><b>t</b></r>')
+            for item in prolog:
+                root.addprevious(LX.Comment(item[1]) if item[0] == 'c' else LX.ProcessingInstruction(item[1], item[2]))
+            if k % 2:
+                root.addnext(LX.ProcessingInstruction('xml-end', 'e'))
+            rn = get_node_tree(LX.ElementTree(root))
+            try:
+                text = ser.evaluate(XPathContext(root=rn, item=rn))
+                again = LX.fromstring(text.encode('utf-8'))
+            except Exception as e:      # noqa
+                bad('serialize of a document with a prolog raises, or gives text that libxml2 rejects', prolog=repr(prolog), err=f'{type(e).__name__}: {str(e)[:80]}')
+                continue
+            if doc_level(again) != doc_level(root) or not tree_equal(root, again):
+                bad('serialize of a document node changes its comments / processing instructions around the root element', prolog=repr(prolog), text=text[:160],
+                    got=repr(doc_level(again))[:160], want=repr(doc_level(root))[:160])
     fails = [{'key': k, 'items': it[:4], 'count': len(it), 'what': f'{k}: e.g. {it[0]}'} for k, it in fam.items()]
     return {'evaluations': n, 'distinct': n, 'exhaustive': False,
             'scope': f'{len(trees)} trees (small-scope decorations, shapes up to {4 if tier == "quick" else 5} nodes, mixed content with non-ASCII and markup characters in '
